@@ -86,23 +86,25 @@ PASSIVE = Obj(C + 'RemoteTarget', _partial=False, _brty_send='106A', _brty_recv=
               sdd_res=Const(bytearray(b'\x08\x01\x02\x03')))
 PCNT = lambda: Obj(DEP + 'DataExchangeProtocol.Counter', _partial=False,    # noqa
                    sent=DictOf({}, default_factory=True), rcvd=DictOf({}, default_factory=True))
-contract(DEP + 'Initiator.activate', 'C19',
-         dict(self=Obj(DEP + 'Initiator', _partial=False, _acm=False, pcnt=PCNT(),
-                       clf=Obj('models.dep_models:PeerTargetClf', _partial=False, lrt=Int(0, 3), wt=Int(0, 15),
-                               gbt=Bytes(0, 47), did=Byte(), sent=Fixed([]))),
-              target=PASSIVE,
-              options=DictOf({'did': Opt(Int(1, 14)), 'nad': None, 'brs': Int(0, 2), 'lri': Int(0, 3),
-                              'gbi': Bytes(0, 48)})),
-         name='C19/Initiator.activate',
-         requires=['self.clf.did == (0 if options["did"] is None else options["did"])'],
-         ensures=[('O-negotiate.lr', 'self.miu + 3 + (0 if self.did is None else 1) == LR_OCTETS[self.clf.lrt]'),
-                  ('O-negotiate.gb', 'result == self.clf.gbt and self.gbt == self.clf.gbt'),
-                  ('O-negotiate.rwt', 'self.rwt == 4096/13.56E6 * 2**(self.clf.wt if self.clf.wt < 15 else 14)'),
-                  ('O-announce.lri', 'lr_of_pp(self.clf.sent[0][17]) == LR_OCTETS[options["lri"]]'),
-                  ('O-announce.gbi', 'self.clf.sent[0][18:] == options["gbi"]'),
-                  ('O-pni', 'self.pni == 0'),
-                  ('O-negotiate.brty', 'self.target.brty == ("106A", "212F", "424F")[options["brs"]]')],
-         raises={})
+for _prop in ('C19', 'C04'):
+  contract(DEP + 'Initiator.activate', _prop,
+           dict(self=Obj(DEP + 'Initiator', _partial=False, _acm=False, pcnt=PCNT(),
+                         clf=Obj('models.dep_models:PeerTargetClf', _partial=False, lrt=Int(0, 3), wt=Int(0, 15),
+                                 gbt=Bytes(0, 47), did=Byte(), sent=Fixed([]))),
+                target=PASSIVE,
+                options=DictOf({'did': Opt(Int(1, 14)), 'nad': Opt(Int(0, 255)), 'brs': Int(0, 2), 'lri': Int(0, 3),
+                                'gbi': Bytes(0, 48)})),
+           name='%s/Initiator.activate' % _prop,
+           requires=['self.clf.did == (0 if options["did"] is None else options["did"])'],
+           ensures=[('O-negotiate.lr', 'self.miu + 3 + (0 if self.did is None else 1) + (0 if self.nad is None else 1) '
+                                       '== LR_OCTETS[self.clf.lrt]'),
+                    ('O-negotiate.gb', 'result == self.clf.gbt and self.gbt == self.clf.gbt'),
+                    ('O-negotiate.rwt', 'self.rwt == 4096/13.56E6 * 2**(self.clf.wt if self.clf.wt < 15 else 14)'),
+                    ('O-announce.lri', 'lr_of_pp(self.clf.sent[0][17]) == LR_OCTETS[options["lri"]]'),
+                    ('O-announce.gbi', 'self.clf.sent[0][18:] == options["gbi"]'),
+                    ('O-pni', 'self.pni == 0'),
+                    ('O-negotiate.brty', 'self.target.brty == ("106A", "212F", "424F")[options["brs"]]')],
+           raises={})
 contract(DEP + 'Target.activate', 'C19',
          dict(self=Obj(DEP + 'Target', _partial=False, pcnt=PCNT(), miu=None, did=None, nad=None, gbi=None,
                        pni=None, rwt=None,
